@@ -71,7 +71,13 @@ def main(argv):
               f"owner {prop} {'KILLED' if r.get('killed_by_owner') else 'MISSED'}  "
               + " ".join(f"{p}:{c['rc']}" for p, c in r.get("checks", {}).items()))
     os.makedirs(os.path.join(VERIF, "evidence"), exist_ok=True)
-    with open(os.path.join(VERIF, "evidence", "selftest.json"), "w") as f:
+    path = os.path.join(VERIF, "evidence", "selftest.json")
+    if only and os.path.exists(path):
+        # a partial run refreshes its own rows and keeps the others
+        fresh = {r["patch"] for r in out}
+        out = [r for r in json.load(open(path)).get("kill_matrix", []) if r["patch"] not in fresh] + out
+        out.sort(key=lambda r: r["patch"])
+    with open(path, "w") as f:
         json.dump({"kill_matrix": out, "killed": sum(1 for r in out if r.get("killed_by_owner")), "total": len(out)}, f, indent=1)
     missed = [r["patch"] for r in out if r.get("tests_pass") and not r.get("killed_by_owner")]
     print(f"killed {sum(1 for r in out if r.get('killed_by_owner'))}/{len(out)}; missed: {missed}")
